@@ -114,6 +114,13 @@ class StartupProp(Prop):
         return sorted(f)
 
     def shrink(self, case) -> Iterator[dict[str, Any]]:
+        from .gen_startup import valid_prog
+
+        for cand in self._shrink(case):
+            if valid_prog(cand["prog"]):
+                yield cand
+
+    def _shrink(self, case) -> Iterator[dict[str, Any]]:
         prog = case["prog"]
         # drop leaf components
         for i in reversed(range(1, len(prog))):
@@ -155,9 +162,8 @@ def monitor_startup(case: dict[str, Any], impl: dict[str, Any]) -> list[tuple[st
     fails: list[tuple[str, str]] = []
     for e in impl["trace"]:
         if e["l"][0] == "probeFailed":
-            fails.append(("C12", f"inside prepare()/start() of component {e['l'][1]}: a new context did not take the context "
-                                 f"start_component was called in as its parent, or the current context was not restored"))
-            fails.append(("C05", f"component {e['l'][1]} did not run in its own component context delegating to the caller's"))
+            for tag in e["l"][3].split(","):
+                fails.append((tag, f"component {e['l'][1]}: {e['l'][2]}"))
     if case["timeout"] == 0:
         nl = impl["ref_nolimit"]
         needs_time = nl["outcome"]["k"] == "timeout" or (nl["outcome"]["k"] == "returned" and nl["end"] > 0) or \
@@ -289,6 +295,10 @@ def monitor_startup(case: dict[str, Any], impl: dict[str, Any]) -> list[tuple[st
     # ---- C06: optional lookups never wait
     for k, e in enumerate(trace):
         if e["l"][0] == "gotOpt":
+            if isinstance(e["l"][4], str) and e["l"][4].startswith("g") and any(
+                    a["a"] == "publishFactory" and a.get("slow") and f"g{a['fid']}" == e["l"][4]
+                    for sp in prog for ph in ("prepare", "start") for a in (sp[ph] or [])):
+                continue        # the resource exists only once its (slow, asynchronous) factory has produced it
             prev = next((x for x in reversed(trace[:k]) if len(x["l"]) > 1 and x["l"][1] == e["l"][1]), None)
             if prev is not None and prev["t"] != e["t"]:
                 fails.append(("C06", f"get_resource(optional=True) of component {e['l'][1]} took time ({prev['t']} -> {e['t']})"))
